@@ -33,6 +33,9 @@ pub enum ErrKind {
     AlreadyExists,
     MissingQueue,
     Past,
+    /// a queue name longer than 65535 bytes: outside the API's domain; the call must be refused
+    /// one way or another (the crate panics) and leave no trace
+    NameTooLong,
     Io(String),
 }
 
@@ -58,6 +61,7 @@ impl Outcome {
                 | Outcome::Err(ErrKind::AlreadyExists)
                 | Outcome::Err(ErrKind::MissingQueue)
                 | Outcome::Err(ErrKind::Past)
+                | Outcome::Err(ErrKind::NameTooLong)
         )
     }
     pub fn label(&self) -> &'static str {
@@ -73,6 +77,7 @@ impl Outcome {
             Outcome::Err(ErrKind::AlreadyExists) => "err-exists",
             Outcome::Err(ErrKind::MissingQueue) => "err-missing",
             Outcome::Err(ErrKind::Past) => "err-past",
+            Outcome::Err(ErrKind::NameTooLong) => "err-name-too-long",
             Outcome::Err(ErrKind::Io(_)) => "err-io",
         }
     }
@@ -154,6 +159,9 @@ impl Model {
             COp::Create(q) => {
                 if self.queues.contains_key(q) {
                     return Outcome::Err(ErrKind::AlreadyExists);
+                }
+                if q.len() > 65535 {
+                    return Outcome::Err(ErrKind::NameTooLong);
                 }
                 self.queues.insert(q.clone(), MQ::default());
                 Outcome::Created
